@@ -315,7 +315,8 @@ def autocorrect_paths(prog):
                     kind = "mixed"
                 else:
                     kind = "other"
-            rows.append((present, asc, nul, kind))
+            consulted = any(b.blocks[bb_]["term"]["k"] == "call" and callee_name(b.blocks[bb_]["term"]) == "data::Data::search_corrected" for (bb_, _) in path)
+            rows.append((present, asc, nul, kind, consulted))
         if not rows or any(r_[3] in ("mixed", "other") for r_ in rows):
             break
         table = {}
@@ -330,6 +331,10 @@ def autocorrect_paths(prog):
                 consistent = [(a_, n_) for a_ in (True, False) for n_ in (True, False) if r_[1] in (None, a_) and r_[2] in (None, n_)]
                 if any(table[c_] for c_ in consistent) and (r_[1] is None and r_[2] is None):
                     user_first = False
+        # … and where the user's entry is rejected (or absent) the bundled table is consulted: a rejected user entry must not hide the bundled one
+        for r_ in rows:
+            if r_[3] != "user" and not r_[4]:
+                user_first = False
         res = {"fn": k, "table": table, "user_first": user_first and any(r_[3] == "user" for r_ in rows), "bundled": any(r_[3] == "bundled" for r_ in rows)}
     prog._ac_paths = res
     return res
